@@ -86,6 +86,17 @@ def check_run(run: WorkerRun, model: Model, res: Result, label: str) -> None:
         last = max(x for x in (d["call_t"], d["end_t"], d["start_t"]) if x is not None)
         return last >= horizon - 1000
     ds = [d for d in deliveries(run) if (d["call_t"] is not None or d["end_t"] is not None) and not cut(d)]
+    # a delivery that was handed to the processor long before the window closed (its time limit + 2 s) and got no broker
+    # action at all — the body never entered (argument conversion, dependency resolution) and nothing reported
+    if horizon is not None:
+        for d in deliveries(run):
+            j = plans[d["id"]]
+            if d["call_t"] is None and d["end_t"] is None and d["start_t"] is None and not d["calls"] \
+                    and d["t"] + int(j.get("timeout", 1_000_000)) + 2_000_000 < horizon:
+                res.bad("impl", "exactly one, correct broker action per delivery: a delivery was handed to the processor and received "
+                                "no broker action at all", case={"label": label, "job": j, "converter": conv,
+                                                                  "delivery": {k: v for k, v in d.items() if k != "params"}},
+                        observed="()", expected="exactly one call")
     if getattr(run, "broker_kind", "memory") != "memory":
         # on the networked brokers the disposition must also have taken effect at the server: after its last delivery was
         # acknowledged a message is in no place (in particular not still in flight), after a nack it is dead-lettered only
